@@ -41,7 +41,7 @@ CLAIMED = {
          "Grammar = the documented one minus aspirational constructs; Rule.description is not judged (the statement does not list it). Each known finding's switch is armed only while its `known:` line is present.",
          "DESIGN.md §6 C04, §10.5"),
  "C05": ("exploration",
-         "fuzzing and property-based testing of 14 parser / evaluator entry points with the oracle 'the call returns': random search over three input families (raw bytes, token soups in valid skeletons, 12 mutation operators over valid seeds and grammar-printed rules) shrunk by proptest, exhaustive single-edit enumeration of every seed (truncation at every byte, every deletion, multi-byte insertion at every position, extreme numbers, bracket groups), exhaustive deep-nesting/long-chain enumeration to 4 KiB with large cases in a child process (stack overflow and hang become exit statuses); thorough adds the engine built at opt-level 0 with overflow checks and a coverage-guided libFuzzer+ASan campaign per entry point",
+         "fuzzing and property-based testing of 14 parser / evaluator entry points with the oracle 'the call returns': random search over three input families (raw bytes, token soups in valid skeletons, 12 mutation operators over valid seeds and grammar-printed rules) shrunk by proptest, exhaustive single-edit enumeration of every seed (truncation at every byte, every deletion, multi-byte insertion at every position, extreme numbers, bracket groups), exhaustive deep-nesting/long-chain enumeration to 4 KiB with large cases in a child process (stack overflow and hang become exit statuses); exhaustive module-import-graph shapes for parse_with_modules (stacked diamonds, complete DAGs, fans, refused back edges) in a child with a 3 GiB address-space cap; thorough adds the engine built at opt-level 0 with overflow checks and a coverage-guided libFuzzer+ASan campaign per entry point",
          "Every one of ~500k (quick) / ~9M (thorough) generated texts per run, on each entry point it applies to, must come back as a value or an error: a panic (any site), a stack overflow, an abort or a call that outlives the watchdog is a violation unless it is the recorded finding C05-F10 (super-cubic regex matching in the third-party matcher), whose witness is replayed on every run. While F10 stands, texts for the regex-based GRL entry points are bounded (condition atoms <= 48 characters, rule text <= 192 bytes) so that the search can continue.",
          "Termination = returns within the 120 s watchdog (wall clock, as the quantifier says; slowest case seen under the F10 bound: 3.3 s). Stack depth is a property of the build: the default harness build has the engine at opt-level 2, the thorough command adds the opt-level-0 build.",
          "DESIGN.md §6 C05, §10.5"),
@@ -72,7 +72,7 @@ CLAIMED = {
          "DESIGN.md §6 C10"),
  "C11": ("exploration",
          "differential property testing of query histories: every query of a generated history on one engine is compared with the same query on a freshly built engine on a deep copy of the same facts",
-         "The k-th answer of every generated history (queries interleaved with fact changes, fresh equal stores, retractions in an attached RETE engine; memoisation on and off) equals the fresh engine's answer, so any dependence on history - and any run-to-run nondeterminism - shows as a disagreement.",
+         "The k-th answer of every generated history (queries interleaved with fact changes, fresh equal stores, retractions in an attached RETE engine, set_config calls; memoisation on and off) equals the fresh engine's answer, so any dependence on history - and any run-to-run nondeterminism - shows as a disagreement.",
          "The fresh engine is the same code without history, so a defect that is independent of history is invisible here (C09 owns it).",
          "DESIGN.md §6 C11"),
  "C12": ("exploration",
